@@ -183,6 +183,21 @@ def closure_vs_post(ctx, rule="R10.3"):
     pre = [n for n in fv.body if isinstance(n, ast.Assign) and "_pre_para(" in ast.unparse(n.value)]
     ok = len(vs_c) == 1 and ast.unparse(vs_c[0].value) == "model.var" and len(vs_f) == 1 and ast.unparse(vs_f[0].value) == "model.var" and pre and vs_f[0].lineno > pre[0].lineno
     ctx.check(ok, rule, FIT + "::fit_variogram", "the saved variance is taken after fixed values were applied and before fitting starts", "var-save")
+    # the variance is (re)written on EVERY evaluation / post-processing path: its raw value depends on len_scale and the
+    # optional arguments (var_factor), which the optimiser moves even when the variance itself is not fitted
+    import itertools
+
+    for fn, nm in ((curve, "curve"), (post, "_post_fitting")):
+        vguards = [g for a2, g, n2 in writes(fn) if a2 == "var"]
+        atoms = sorted({x[5:-1] if x.startswith("not (") else x for g in vguards for x in g})
+        uncovered = []
+        for bits in itertools.product([True, False], repeat=len(atoms)):
+            val = dict(zip(atoms, bits))
+            sat = any(all((not val[x[5:-1]]) if x.startswith("not (") else val[x] for x in g) for g in vguards)
+            if not sat:
+                uncovered.append({a: v for a, v in val.items()})
+        ctx.check(bool(vguards) and not uncovered, rule, FIT + "::" + nm,
+                  "model.var is written on every path (guards %s cover all cases)%s" % ([sorted(g) for g in vguards], "" if not uncovered else "; NOT covered: %s" % uncovered[:2]), "var-coverage:" + nm)
     # var is set after every other parameter (var_factor)
     for fn, nm in ((curve, "curve"), (post, "_post_fitting")):
         vw = [n2.lineno for a2, g2, n2 in writes(fn) if a2 == "var"]
